@@ -256,6 +256,80 @@ def check(ctx):
     inside = any(any(x is rets[0] for x in ast.walk(b)) and any(x is run for x in ast.walk(b)) for b in with_lock_blocks(model, ir, locks))
     ctx.check(inside, "C20.R3", f"{ir.qualname}:under-lock", None, "the run of the checker and the read of its verdict are not inside the same `with <lock>` block", ir, rets[0], detail="with _recursion_lock: run; return")
 
+    # --- R4: containers captured by closures that outlive the call creating them
+    ctx.rule("C20.R4", "a container created in a function and mutated by one of its nested functions is private to the call only if that nested function does not outlive it (it is called, never returned / stored / handed over, directly or through another closure): a lazily filled memo shared by escaping closures is a check-then-act on state shared by every thread using them", floor=1)
+    MUT4 = {"append", "extend", "add", "update", "insert", "pop", "clear", "remove", "discard", "setdefault", "popitem"}
+    n4 = 0
+    for fi in list(model.functions.values()):
+        if fi.parent is None or not fi.module.name.startswith("apischema"):
+            continue
+        local = {a.arg for a in fi.node.args.args + fi.node.args.kwonlyargs + fi.node.args.posonlyargs}
+        if fi.node.args.vararg:
+            local.add(fi.node.args.vararg.arg)
+        if fi.node.args.kwarg:
+            local.add(fi.node.args.kwarg.arg)
+        for n in walk_no_nested(fi.node):
+            if isinstance(n, ast.Name) and isinstance(n.ctx, ast.Store):
+                local.add(n.id)
+        for n in walk_no_nested(fi.node):
+            tgt = None
+            if isinstance(n, ast.Call) and isinstance(n.func, ast.Attribute) and n.func.attr in MUT4 and isinstance(n.func.value, ast.Name):
+                tgt = n.func.value.id
+            if isinstance(n, ast.Subscript) and isinstance(n.ctx, (ast.Store, ast.Del)) and isinstance(n.value, ast.Name):
+                tgt = n.value.id
+            if tgt is None or tgt in local:
+                continue
+            g = fi.parent
+            owner_f = None
+            while g is not None:
+                if any(isinstance(a, (ast.Assign, ast.AnnAssign)) and any(isinstance(t, ast.Name) and t.id == tgt for t in (a.targets if isinstance(a, ast.Assign) else [a.target]))
+                       and isinstance(a.value, (ast.List, ast.Dict, ast.Set, ast.ListComp, ast.DictComp, ast.SetComp, ast.Call)) for a in walk_no_nested(g.node)):
+                    owner_f = g
+                    break
+                g = g.parent
+            if owner_f is None:
+                continue
+            n4 += 1
+            # does fi (or a closure referring to it) outlive the call of owner_f?
+            sibs = owner_f.nested
+            escaping = set()
+            for nm, sf in sibs.items():
+                for x in ast.walk(owner_f.node):
+                    if isinstance(x, ast.Name) and x.id == nm and isinstance(x.ctx, ast.Load):
+                        par_ = None
+                        for p_ in ast.walk(owner_f.node):
+                            if any(ch is x for ch in ast.iter_child_nodes(p_)):
+                                par_ = p_
+                        is_direct_call = isinstance(par_, ast.Call) and par_.func is x
+                        in_decorator = False
+                        if not is_direct_call and not in_decorator:
+                            escaping.add(nm)
+            changed = True
+            while changed:
+                changed = False
+                for nm, sf in sibs.items():
+                    if nm in escaping:
+                        for x in ast.walk(sf.node):
+                            if isinstance(x, ast.Name) and x.id in sibs and x.id not in escaping and x.id != nm:
+                                escaping.add(x.id)
+                                changed = True
+            # lambdas of owner_f referring to a sibling make it escape too
+            for lam in ast.walk(owner_f.node):
+                if isinstance(lam, ast.Lambda):
+                    for x in ast.walk(lam):
+                        if isinstance(x, ast.Name) and x.id in sibs:
+                            escaping.add(x.id)
+            chain = fi
+            top = fi
+            while top.parent is not owner_f and top.parent is not None:
+                top = top.parent
+            outlives = top.name in escaping or any(nm in escaping and any(isinstance(x, ast.Name) and x.id == top.name for x in ast.walk(sf.node)) for nm, sf in sibs.items())
+            lexical = any(any(x is n for x in ast.walk(b)) for b in with_lock_blocks(model, fi, locks))
+            ctx.check((not outlives) or lexical, "C20.R4", f"{fi.qualname}:{tgt}", None,
+                      f"`{short(n, 50)}` fills `{tgt}`, a container of {owner_f.qualname} captured by closures that outlive the call ({', '.join(sorted(escaping))}): two threads inside the window on first use both fill it (check-then-act without lock) - e.g. a memo list extended twice, after which every later use fails or differs",
+                      fi, n, detail="mutated only by closures that do not escape, or under a module-level lock")
+    ctx.check(n4 >= 1, "C20.R4", "closure-cells", None, "no container captured and mutated by a nested function found (rule instance vanished)", None, None, detail=f"{n4} site(s)", nontrivial=False)
+
     # lru_cache'd per-instance memo of LazyConversion is created at construction time only
     lc = model.classes.get("apischema.conversions.conversions.LazyConversion")
     if lc is not None:
@@ -276,6 +350,7 @@ def fixtures(ctx):
 
 def mutants(mb):
     R = "apischema/recursion.py"
+    mb.add_text("object-serialization-unsynchronised-memo", "apischema/objects/conversions.py", "    def __init__(self, obj):\n        _, new_init = _fields_and_init(cls, fields_and_methods)\n", "    resolved: list = []\n\n    def fields_and_init():\n        if not resolved:\n            resolved.extend(_fields_and_init(cls, fields_and_methods))\n        return resolved\n\n    def __init__(self, obj):\n        _, new_init = fields_and_init()\n", "C20.R4", "resolved")
     DM = "apischema/deserialization/methods.py"
     SM = "apischema/serialization/methods.py"
     mb.add_text("no-lock", R, "    with _recursion_lock:\n        cache = recursion_cache(checker_cls, default_conversion)\n        if rec_key not in cache:\n            checker = checker_cls(default_conversion)\n            checker.visit_with_conv(tp, conversion)\n            # caches can be reset at any time (registration in another thread,\n            # cache.set_size(0)): read the result where the checker has written it\n            cache = checker._cache\n        return cache[rec_key]\n", "    cache = recursion_cache(checker_cls, default_conversion)\n    if rec_key not in cache:\n        checker = checker_cls(default_conversion)\n        checker.visit_with_conv(tp, conversion)\n        cache = checker._cache\n    return cache[rec_key]\n", "C20.R1", "RecursiveChecker.visit")
